@@ -86,6 +86,11 @@ CHECKS = {
          "Generated search over names in five scripts, descriptions with long words/newlines/blank paragraphs, nesting and terminal widths 1..400 (real pty on fd 0); the rendered help must not panic, be valid UTF-8, start all descriptions in one column (characters), indent continuation lines to it, conserve the words in order, and respect the width when >= 10 columns remain.",
          "column and width are measured in characters (the unit the library's own alignment uses); tabs inside descriptions and '-' inside description words are not generated (hyphen at line end is then unambiguously a hard break); requires /dev/ptmx, otherwise cases are skipped and counted",
          "DESIGN.md §4 C17"),
+ "C19": ("exploration",
+         "property-based testing (rapid): tags built by construction with random escape spellings, single-fault mutations and declaration faults, judged by a reference tag scanner; native fuzzing of raw tag bytes",
+         "Generated search over declarations whose tag values are arbitrary strings rendered with per-character random escapes and spacing, with repeated keys, one mutation at a random position, or one declaration fault (long short name, default on a flag, duplicate short / namespaced long name incl. namespace-created collisions). A reference scanner of the conventional tag syntax decides well-formedness; well-formed declarations must yield exactly the declared public model (Option/Group/Command/Arg fields, order, field binding), faulty ones the corresponding typed error from AddGroup/AddCommand and from NewParser+ParseArgs; never a panic. Thorough adds a 60 s fuzz campaign over raw tag bytes.",
+         "the reference scanner (harness/props/c19_test.go) is trusted; tag forms on which conventions differ (control characters or an empty key, marks spelled false/no/0) are skipped and counted; duplicate detection is checked within one declaration unit (one added struct or one command struct), as the statement says",
+         "DESIGN.md §4 C19"),
  "C20": ("exploration",
          "property-based testing (rapid): generated command-name sets x words against a reference rune Levenshtein oracle and a parsed error message",
          "Generated search over command-name sets (visible/hidden, multi-byte, tag and programmatic declaration) and words (random, 1-3 edits of a name, empty argv); every ErrUnknownCommand/ErrCommandRequired message is parsed and compared with an independent edit-distance computation: suggestion must be a nearest visible command within the threshold, otherwise the sorted visible list. Holds on everything explored; not a proof.",
